@@ -163,8 +163,27 @@ impl Grp for GA {
     }
     fn lambda_for_coords(s: &mut Src, p: &(F, F)) -> Option<(F, &'static str)> {
         let q = zp::q();
-        let t = [BigUint::one(), q - 1u32, BigUint::from(2u32), BigUint::from(3u32), (q + 1u32) >> 1][s.choose(5)].clone();
-        if s.bool() {
+        let ts = [BigUint::one(), q - 1u32, BigUint::from(2u32), BigUint::from(3u32), (q + 1u32) >> 1];
+        let ti = s.choose(5);
+        let t = ts[ti].clone();
+        let kind = s.choose(3);
+        if kind == 2 {
+            // the z of the DOUBLE, 2*Y*Z = 2 lambda^4 y, is a boundary value t (an accumulator that becomes "affine" midway):
+            // lambda = (t / 2y)^(1/4); a fourth root exists for 1 in 4 values, so the targets are tried in turn
+            let inv2y = zp::inv_mod(&((rf::f_to_big(&p.1) * 2u32) % q), q)?;
+            for j in 0..5 {
+                let c = zp::mul_mod(&ts[(ti + j) % 5], &inv2y, q);
+                if let Some(s1) = zp::sqrt_mod_5mod8(&c, q) {
+                    if let Some(l) = zp::sqrt_mod_5mod8(&s1, q) {
+                        if !l.is_zero() {
+                            return Some((rf::f_from_big(&l), "Z(2P)-target"));
+                        }
+                    }
+                }
+            }
+            return None;
+        }
+        if kind == 0 {
             // X = lambda^2 x = t  =>  lambda = sqrt(t / x)
             let c = zp::mul_mod(&t, &zp::inv_mod(&rf::f_to_big(&p.0), q)?, q);
             let l = zp::sqrt_mod_5mod8(&c, q)?;
@@ -276,7 +295,15 @@ impl Grp for GB {
         k * p
     }
     fn lambda(s: &mut Src) -> (R2, &'static str) {
-        match s.choose(12) {
+        match s.choose(13) {
+            12 => {
+                // norm one: w / conj(w)  (an inverse that special-cases the norm must still conjugate)
+                let w = R2::new(rf::f_from_big(&felt(s, Md::Q).v), rf::f_from_big(&felt(s, Md::Q).v));
+                match w.conj().inv() {
+                    Some(ci) => (w.mul(&ci), "norm-one"),
+                    None => (R2::one().neg(), "-1"),
+                }
+            }
             11 => {
                 // z = a + b*u with a, b in {0, R^-1, 2R^-1, -R^-1, R, R^2, R^-2}: stored limbs equal to small integers etc.
                 let c = rf::f_from_big(&crate::gen::mont_confusion(s, Md::Q));
@@ -354,7 +381,24 @@ impl Grp for GB {
         (R2::new(z, F::zero()), n)
     }
     fn lambda_for_coords(s: &mut Src, p: &(R2, R2)) -> Option<(R2, &'static str)> {
-        let t = [R2::one(), R2::one().neg(), R2::new(F::from(2u64), F::zero()), R2::new(F::zero(), F::one()), R2::new(F::one(), F::one())][s.choose(5)];
+        let ts = [R2::one(), R2::one().neg(), R2::new(F::from(2u64), F::zero()), R2::new(F::zero(), F::one()), R2::new(F::one(), F::one())];
+        let ti = s.choose(5);
+        let t = ts[ti];
+        if s.choose(3) == 2 {
+            // z of the double = 2 lambda^4 y = t (see G1)
+            let inv2y = p.1.add(&p.1).inv()?;
+            for j in 0..5 {
+                let c = ts[(ti + j) % 5].mul(&inv2y);
+                if let Some(s1) = c.sqrt() {
+                    if let Some(l) = s1.sqrt() {
+                        if !Fld::is_zero(&l) {
+                            return Some((l, "Z(2P)-target"));
+                        }
+                    }
+                }
+            }
+            return None;
+        }
         // X = lambda^2 x = t  =>  lambda = sqrt(t / x)
         let c = t.mul(&p.0.inv()?);
         let l = c.sqrt()?;
